@@ -22,8 +22,9 @@ REQUIRE = {'streams_drop': 50, 'streams_nondrop': 50, 'streams_with_offset': 50,
            'gaps_exactly_five_frames': 3, 'gaps_open': 20, 'last_caption_four_seconds': 50,
            'flash_cue_streams': 10, 'times_compared': 500, 'captions_split_same_times': 10,
            'streams_beginning_before_the_offset': 20, 'reads_with_lang_option': 50,
-           'reads_by_a_reader_object_used_before': 100, 'streams_with_a_load_that_loads_nothing': 100, 'streams_with_a_fractional_offset': 100,
-           'loads_of_over_a_hundred_words_across_a_minute_or_hour_of_timecode': 100}
+           'reads_by_a_reader_object_used_before': 100, 'streams_with_a_load_that_loads_nothing': 100, 'streams_with_a_fractional_offset': 100, 'reads_with_positional_arguments': 100,
+           'loads_of_over_a_hundred_words_across_a_minute_or_hour_of_timecode': 100,
+           'lines_of_over_a_thousand_words': 10}
 CW = Fraction(1001000, 30)        # one code word at 29.97 fps, in microseconds
 
 
@@ -48,6 +49,8 @@ def gen(rng):
     case = {'prog': prog, 'offset': offset, 'start_frame': start_frame,
             'min_gap': rng.choice([0, 0, 1, 2, 3, 4, 5, 6, 8, 30, 200]),
             'lang': rng.choice([None, None, None, 'fr', 'en-US', 'x-y'])}
+    if rng.random() < 0.2:
+        case['positional'] = True
     if rng.random() < 0.2:
         # the reader object has read another document before, with the other kind of timecode in half of them
         case['prior_doc'] = G.prior_doc(rng, drop=rng.choice([None, not prog['drop']]))
@@ -77,9 +80,25 @@ def _long_probe(drop, doubled, nrows, start_frame):
     return {'kind': 'long-load', 'prog': prog, 'offset': 0, 'start_frame': start_frame, 'min_gap': 10}
 
 
+def _one_line_probe(drop, doubled, start_frame):
+    """Seven captions of twelve full rows sent back to back on ONE line of more than a thousand words."""
+    row = lambda r, text: {'row': r, 'col': 0, 'to': 0, 'pac_italic': False, 'pac_underline': False,
+                           'pac_color': None, 'items': [['c', ch] for ch in text]}
+    full = 'abcdefghij klmnopqrs tuvwxyz ABCD'[:32]
+    prog = {'doubled': doubled, 'drop': drop, 'captions': [
+        {'rows': [row(r, full) for r in range(1, 13)], 'edm': 'none', 'enm': True, 'gap': 0} for _ in range(7)]}
+    return {'kind': 'one-line', 'prog': prog, 'offset': 0, 'start_frame': start_frame, 'min_gap': 0, 'one_line': True}
+
+
 def cases(ctx):
     rng = ctx.rng('c06')
     idx = 0
+    for drop in (False, True):
+        for doubled in (False, True):
+            for sf in (0, 17, 1795):
+                if ctx.mine(idx):
+                    yield _one_line_probe(drop, doubled, sf)
+                idx += 1
     for drop in (False, True):
         for doubled in (False, True):
             for nrows in (5, 8, 12):
@@ -162,6 +181,16 @@ def check(case, ctx):
     from pycaption.exceptions import CaptionReadTimingError, CaptionReadNoCaptions
     prog = case['prog']
     lines, _ = G.encode_popon(prog, start_frame=case['start_frame'], min_gap=case['min_gap'])
+    if case.get('one_line'):
+        # lines whose frames follow each other without a gap are one long line (same words at the same frames)
+        merged = []
+        for tc, ws, f0 in lines:
+            if merged and merged[-1][2] + len(merged[-1][1]) == f0:
+                merged[-1] = (merged[-1][0], merged[-1][1] + ws, merged[-1][2])
+            else:
+                merged.append((tc, list(ws), f0))
+        lines = merged
+        ctx.count('lines_of_over_a_thousand_words', sum(1 for _tc, ws, _f in lines if len(ws) > 1000))
     doc = G.scc_doc(lines)
     caps, gaps = model(lines, prog['drop'], case['offset'])
     ctx.count('streams_drop' if prog['drop'] else 'streams_nondrop')
@@ -187,7 +216,13 @@ def check(case, ctx):
         kw = {'lang': case['lang']} if case.get('lang') else {}
         if kw:
             ctx.count('reads_with_lang_option')
-        cs = G.reader_for(case, ctx).read(doc, offset=case['offset'], **kw)
+        reader = G.reader_for(case, ctx)
+        if case.get('positional'):
+            # read(content, lang, simulate_roll_up, offset) in the documented order, by position
+            ctx.count('reads_with_positional_arguments')
+            cs = reader.read(doc, case.get('lang') or 'en-US', False, case['offset'])
+        else:
+            cs = reader.read(doc, offset=case['offset'], **kw)
     except CaptionReadTimingError as e:
         if flash_maybe:
             ctx.count('flash_cue_streams')
